@@ -449,15 +449,36 @@ def blockStepPinned (st : RdState) (bl : BlockLine) : RdState :=
     else { st with logical := sTrue, acts := st.acts ++ [st.lb], ifBlock := [], lb := [] }
   | _ => st
 
-def readLine (v : Variant) (pdir : Option Str) (st : RdState) (line : Str) : Res RdState :=
+/-- what a rewritten line is to the reader: a line of the block structure, a command, or nothing -/
+inductive Line | blk (b : BlockLine) | act (a : Action) | skip
+  deriving DecidableEq, Repr
+
+/-- the two patterns of `_read` tried in order, and the command cascade -/
+def classify (v : Variant) (pdir : Option Str) (line : Str) : Res Line :=
   match blockLine v line with
-  | some bl => .ok (if v.d4 then blockStep st bl else blockStepPinned st bl)
+  | some bl => .ok (.blk bl)
   | none =>
     match commandLine v pdir line with
-    | .act a => .ok { st with block := st.block ++ [a] }
-    | .skip => .ok st
+    | .act a => .ok (.act a)
+    | .skip => .ok .skip
     | .bad => .err .badTable
     | .unmodelled => .err .unmodelled
+
+/-- the effect of a classified line on the reader's state -/
+def stepL (v : Variant) (st : RdState) : Line → RdState
+  | .blk bl => if v.d4 then blockStep st bl else blockStepPinned st bl
+  | .act a => { st with block := st.block ++ [a] }
+  | .skip => st
+
+def runL (v : Variant) (st : RdState) (ls : List Line) : RdState := ls.foldl (stepL v) st
+
+/-- all lines classified (stops at the first line that raises) -/
+def classifyAll (v : Variant) (pdir : Option Str) : List Str → Res (List Line)
+  | [] => .ok []
+  | l :: ls => (classify v pdir l).bind fun c => (classifyAll v pdir ls).bind fun cs => .ok (c :: cs)
+
+def readLine (v : Variant) (pdir : Option Str) (st : RdState) (line : Str) : Res RdState :=
+  (classify v pdir line).bind fun l => .ok (stepL v st l)
 
 def readLines (v : Variant) (pdir : Option Str) : RdState → List Str → Res RdState
   | st, [] => .ok st
